@@ -291,7 +291,17 @@ def one_dataset(obs, rng, conv, spec, mode):
     tmp = tempfile.mkdtemp(prefix='c20-')
     try:
         inp = os.path.join(tmp, 'input.nc')
-        model.encode().to_netcdf(inp)          # plain xarray: the dataset "written to disk"
+        plain = model.encode()
+        encoding = {}
+        if chance(rng, 0.4):
+            # missing coordinates written the way most ocean models write them: a numeric _FillValue, not NaN
+            for gname in model.geometry_names:
+                gvar = plain.variables.get(gname)
+                if gvar is not None and gvar.dtype.kind == 'f' and bool(numpy.isnan(gvar.values).any()):
+                    encoding[gname] = {'_FillValue': -999.0 if gvar.dtype == numpy.float64 else numpy.float32(-999.0)}
+            if encoding:
+                obs.cls('cli:holes-stored-as-numeric-fill-value')
+        plain.to_netcdf(inp, encoding=encoding)          # plain xarray: the dataset "written to disk"
         env = Env(obs, rng, model, tmp, inp, mode, spec)
         obs.cls('cli:' + conv)
         if mode == 'subprocess':
